@@ -39,6 +39,9 @@ type Case struct {
 	// AnyHosts are arbitrary (possibly malformed) Host values used only for the metamorphic
 	// relation "a method without hostname routes ignores the Host altogether".
 	AnyHosts []stats.B `json:"any_hosts,omitempty"`
+	// Detour are routes registered after Routes and deleted again before any request: hostnames that extend or truncate a
+	// registered hostname. The registered set is Routes either way.
+	Detour []rt.RouteSpec `json:"detour,omitempty"`
 }
 
 func hasBoth(pats []string) bool {
@@ -79,9 +82,15 @@ func adjust(p string) string {
 }
 
 func checkCase(c *Case, count bool) error {
-	r, err := rt.New(c.G, c.Routes)
+	r, err := rt.NewDetour(c.G, c.Routes, c.Detour)
 	if err != nil {
+		if len(c.Detour) > 0 && r == nil && strings.HasPrefix(err.Error(), "detour route") {
+			return err
+		}
 		return nil
+	}
+	if count && len(c.Detour) > 0 {
+		stats.Class("detour:neighbour-hostnames-registered-and-deleted")
 	}
 	for _, q := range c.Reqs {
 		pats := r.Patterns(q.Method)
@@ -212,6 +221,32 @@ func genCase(t *rapid.T) *Case {
 		pool = append(pool, p)
 		m := gen.Pick(t, []string{"GET", "GET", "GET", "POST"}, "method")
 		c.Routes = append(c.Routes, rt.RouteSpec{Method: m, Pattern: p})
+	}
+	if gen.Chance(t, 1, 3, "detour") {
+		for i, nd := 0, gen.IntR(t, 1, 2, "ndetour"); i < nd; i++ {
+			src := gen.Pick(t, c.Routes, "dsrc")
+			j := strings.IndexByte(src.Pattern, '/')
+			if j <= 0 {
+				continue
+			}
+			h, rest := src.Pattern[:j], src.Pattern[j:]
+			switch gen.IntR(t, 0, 3, "dkind") {
+			case 0:
+				h += gen.Pick(t, []string{"a", "b", "c", "-a"}, "dsuffix")
+			case 1:
+				h += gen.Pick(t, []string{".a", ".b", ".au"}, "dlabel")
+			case 2:
+				h = gen.Pick(t, []string{"a", "b", "a."}, "dprefix") + h
+			default:
+				if len(h) > 1 {
+					h = h[:gen.IntR(t, 1, len(h)-1, "dcut")]
+				}
+			}
+			if gen.Chance(t, 1, 3, "dpath") {
+				rest = gen.Pick(t, []string{"/", "/a", "/b", "/{x}"}, "drest")
+			}
+			c.Detour = append(c.Detour, rt.RouteSpec{Method: src.Method, Pattern: h + rest})
+		}
 	}
 	nreq := gen.IntR(t, 1, 6, "nreq")
 	for i := 0; i < nreq; i++ {
